@@ -150,6 +150,10 @@ def finish(ctx, floors, tier, seed, t0, extra=None, level_text='', quiet=False):
                                                       if f in ctx.facts.bodies),
             'spliced_helpers': dict((k, v) for k, v in getattr(ctx.facts, 'inlined', {}).items()),
             'functions_treated_as_renamed': getattr(ctx.facts, 'renamed', {}),
+            'closures_expanded_as_new': dict((k, v) for k, v in getattr(ctx.facts, 'desugared', {}).items()),
+            'functions_read_in_loop_normal_form': dict(
+                (k, b.j.get('desugared', [])) for k, b in getattr(ctx.facts, '_norm', {}).items()
+                if b.j.get('desugared') and k in ctx.functions),
             'bodies_in_fact_file': ctx.facts.nbodies,
             'fact_file': os.path.basename(ctx.facts.path),
             'known_findings': [i.key for i in kf],
